@@ -23,7 +23,7 @@ CLAIMED = {
         "Every tree is written out and parsed for real: no _ambig node in the Lark tree, and the projected component tree (kinds, names, qualifiers, "
         "operators, argument order, literal values) must equal the emitted one. Sequences of trees under 4 random layouts each (whitespace, newlines, "
         "~comments~ between components, outer comments without mode settings) must project identically; every function name of the factory is "
-        "checked with each argument shape its own validation accepts; generated runnable programs under three layouts are validated by RunTrace.",
+        "checked with each argument shape its own validation accepts; generated runnable programs under three layouts must be one run (spec/SameRun.tla).",
         note="Applicability: the model is a generator and structural oracle, not a temporal one. Trusted: TLC; the projection in checks/c17.py. Tokens "
         "inside a component are separated by single blanks; layout varies between components only (the statement).",
         technique="TLA+ grammar spec enumerated by TLC; every derivation replayed into the real parser and the projected tree compared",
@@ -72,7 +72,7 @@ CLAIMED = {
         "$name.variables.v[.key] / $name.headers.h reference evaluates to RefExpected over the referenced member's most recent run (1-3 runs, "
         "data changed between runs), and a results reference used as file name replays the referenced data.csv. Each stage's behaviour on the "
         "required input is validated by RunTrace.",
-        note="Trusted: TLC. Variable references also go to two-member groups whose members assign the same variable (the later member's value: docs/variables.md); "
+        note="Each stage's run in its chain must be the run of that csvpath alone over the input Chain.tla requires (SameRun.tla); what a run should be is not judged here. Trusted: TLC. Variable references also go to two-member groups whose members assign the same variable (the later member's value: docs/variables.md); "
         "header references and replays go to one-member groups over ragged data; the group that replays a results reference is itself a chain of 1-3 members. Known finding: a preceding member whose predecessor collected nothing aborts with FileNotFoundError.",
         technique="TLA+ chain spec model-checked with TLC; recorded stage inputs and reference values validated by TLC against the spec",
         ref="7 (C20)",
@@ -81,13 +81,16 @@ CLAIMED = {
     "C08": dict(
         text="spec/Group.tla: members x schedule with the GENERAL interleaving as Next; TLC checks Solo (a member's results are a function of "
         "itself and of the records it consumed) over all interleavings and a negative control with a shared flag must violate it; SerialStep "
-        "and ByLineStep are the implementation's two schedules, Keep the breadth-first yield rule. Binding: generated groups are run "
-        "standalone, with the 3 serial and the 3 breadth-first methods (with/without if_all_agree); every member trace in every way is "
-        "validated by RunTrace (one deterministic run machine, so accepted traces are equal runs) and the recorded global schedule of "
-        "_consider_line calls plus the lines handed to the caller are validated by spec/GroupTrace.tla.",
+        "and ByLineStep are the implementation's two schedules, Keep the breadth-first yield rule. spec/MC_GroupRun.tla proves the same on CONCRETE members: over a closed pool of signal-free groups SoloConcrete (every "
+        "member ends exactly as its standalone run ends, under both schedules) and YieldRule (union / intersection of the decisions of the "
+        "members that looked at a record) are TLC invariants, and the pool with cross-path signals must violate SoloConcrete. Binding: "
+        "generated groups and the pooled groups are run standalone, with the 3 serial and the 3 breadth-first methods (with/without "
+        "if_all_agree); every member's run in every way must BE its standalone run (spec/SameRun.tla: call by call and in the final state) "
+        "and the recorded global schedule of _consider_line calls plus the lines handed to the caller are validated by spec/GroupTrace.tla.",
         note="Trusted: TLC; class-level interposition on CsvPaths.csvpath and CsvPath._consider_line; yielded lines are mapped to records by "
-        "object identity. The general interleaving is checked on the specification only.",
-        technique="TLA+ interleaving spec model-checked with TLC; implementation schedules and member traces validated against the spec",
+        "object identity. The general interleaving is checked on the specification only. What a run should be is not judged here (the "
+        "member traces are also validated against the run machine; the count is reported).",
+        technique="TLA+ interleaving specs model-checked with TLC (abstract and concrete members); recorded schedules, yields and the relation 'same run' validated by TLC",
         ref="7 (C08)",
     ),
     "C09": dict(
@@ -193,15 +196,18 @@ CLAIMED = {
         ref="7 (C04)",
     ),
     "C07": dict(
-        text="Each generated case is run with collect(), next(), fast_forward() and collect(nexts=n) for n in 1..matches+1; "
-        "every trace and final state must be accepted by the same deterministic run machine (RunTrace.tla), which makes the "
-        "runs equal and makes collect(nexts=n) a prefix with no later side effect (the spec's Step stops at the n-th returned line). "
-        "The generated programs include the line-rewriting functions (replace, append, collect): the delivered cells are then those the "
-        "specification computes (st.line, st.headers, st.limit), for every method.",
-        note="Trusted as C01. _freeze_path after an abandoned generator is not judged.",
-        technique="trace validation of four entry points against one deterministic TLA+ run machine",
+        text="spec/SameRun.tla states 'these recorded executions are one run' as a relation checked by TLC: every _consider_line call of "
+        "next() and of fast_forward() leaves the state collect() left after the same call (line, returned or not, counters, stop state, "
+        "validity, votes, variables, printouts), the runs have the same number of calls and the same final state (and delivered lines where a "
+        "method delivers them); collect(nexts=n) is the base run cut after the call that returned the n-th line, with the final state of "
+        "exactly that moment (no side effect of a later line) and the first n lines. Each generated case (control, validity and "
+        "line-rewriting functions) is run for real with all four entry points.",
+        note="What the run should be is C01/C03/C04/C13's business: the traces are also validated against the run machine and the count is "
+        "reported, but a run all methods agree on is not a C07 violation. _freeze_path after an abandoned generator is not compared.",
+        technique="TLA+ relation spec (SameRun) validated by TLC on executions recorded from the four entry points",
         ref="7 (C07)",
     ),
+
     "C13": dict(
         text="Trace validation of generated csvpaths with conditional stop/fail_and_stop/skip/advance at every position and "
         "last()/last()-> components, over files with interior and trailing blank records and all scan shapes: stopped, advance, "
